@@ -14,6 +14,7 @@ import ProfiVerif.Lemmas.TimedRingAgree
 import ProfiVerif.Lemmas.ColdStart
 import ProfiVerif.Lemmas.ColdStartSolo
 import ProfiVerif.Lemmas.ListenLearn
+import ProfiVerif.Lemmas.ListenNet
 
 namespace PV.C06
 open PV
@@ -983,5 +984,59 @@ example : ∃ s', listenRun [] sL5 [] insB = some (s', []) ∧ s'.st = .listenTo
       · exact .inl rfl)
     (by decide)
     ⟨by decide, by decide, by decide, by decide, by decide, by decide, trivial⟩
+
+/-! ## Phase (b) on the bus: one poll of a listener that overhears a lone transmitter with arbitrary lag -/
+
+/-- **One poll of a `ListenToken` station on the byte-accurate bus while a lone transmitter is active** (the
+Net-level building block of phases (b)/(c)).  The log (`LoneLog`) is fault-free and non-overlapping and holds only
+transmissions of station `x` (address `aL`): self-addressed tokens and GAP requests to addresses other than the
+listener's.  The listener `j` satisfies the listener condition `LLOk` — arbitrary lag: its buffer holds exactly what
+has arrived of the not yet consumed transmissions, the head of which is incomplete; its ring view is what the
+telegrams `hd` consumed so far made of `r0`; the next character arrives before its token-lost time-out, given that
+the transmitter is never silent for more than `G` (`G + ⌈11 bit⌉ + 2 ≤ Tto`).  Then a poll at any time `now` up to the
+horizon `H ≤ end of the last transmission + G` returns regularly, transmits nothing, and `LLOk` holds again with the
+telegrams consumed in this poll appended to `hd` (so the ring view follows the overheard tokens:
+`listener_learns_lone_ring`, ready after three). -/
+theorem listener_poll_on_bus (cfg : Cfg) (G aL x : Nat) (b : Bus) (H : Int) (j : Nat) (st : NetStation) (r0 : TokenRing)
+    (hd : List Telegram) (hL : LLOk cfg G aL b H j st r0 hd) (hlog : LoneLog cfg aL st.s.p.address x b) (hr : 0 < cfg.rate)
+    (haL : aL < 126) (hjx : j ≠ x) (hjl : j < b.seen.length) (now : Int) (hsn : b.seen.getD j 0 < now) (hnowH : now ≤ H)
+    (hstart : ∀ t ∈ b.txs, t.start ≤ now)
+    (hH : ∀ t, b.txs.getLast? = some t → H ≤ cEnd cfg t + (G : Nat)) :
+    ∃ inc c hd', b.deliver j now = ({ b with seen := b.seen.set j now }, inc) ∧
+      st.s.poll st.apps now (b.transmitting j now) (st.rx ++ inc) = .ok c ∧ c.tx = none ∧ c.s.p = st.s.p ∧
+      LLOk cfg G aL { b with seen := b.seen.set j now } H j (upSt st c) r0 hd' :=
+  llisten_step hL hlog hr haL hjx hjl now hsn hnowH hstart hH
+
+/-! Non-vacuity: station 3 (index 0) sent a self-addressed token at time 0; station 5 (index 1), listening, last polled
+at 20 µs (nothing of the token has arrived yet), is polled at 100 µs. -/
+def tokS : Transmission := { start := 0, sender := 0, bytes := StationGap.tokenBytes 3 3, dropped := false }
+def busS : Bus := { rate := 500000, txs := [tokS], seen := [0, 20] }
+open PV.C13 in
+def sL5' : Station := { (Station.new pR5) with online := true, st := .listenToken none 0, lastBusActivity := some 10 }
+def nsL5' : NetStation := { s := sL5', apps := [], online := true }
+
+open PV.C13 in
+theorem loneLogS : LoneLog cfgR 3 5 0 busS :=
+  ⟨rfl, rfl, List.pairwise_singleton _ _, (fun t ht => by simp only [busS, List.mem_singleton] at ht; subst ht; rfl),
+    (fun t ht => by simp only [busS, List.mem_singleton] at ht; subst ht; rfl),
+    (fun t ht => by simp only [busS, List.mem_singleton] at ht; subst ht; exact .inl rfl)⟩
+
+open PV.C13 in
+theorem llokS : LLOk cfgR 1000 3 busS 1066 1 nsL5' (TokenRing.new 5) [] := by
+  have hinv5 : Inv sL5' [] := by
+    have h := inv_new pR5 [] (by decide) (by decide) (by intro s hs; cases hs)
+    exact ⟨h.addr, h.hsa, h.ring, fun ho => by simp [sL5'] at ho, h.gap, fun a ha => by simp [sL5'] at ha,
+      fun a ha => by simp [sL5'] at ha, h.app, fun a d ha => by simp [sL5'] at ha, h.scripts, by simp [sL5']⟩
+  refine ⟨rfl, rfl, hinv5, rfl, by decide, by decide, rfl, [], [tokS], 10, 0, rfl, (fun o ho => by cases ho), by decide,
+    by decide, ?_, rfl, by decide, rfl, by decide⟩
+  intro t rest hrs
+  cases hrs
+  decide
+
+open PV.C13 in
+example := listener_poll_on_bus cfgR 1000 3 0 busS 1066 1 nsL5' (TokenRing.new 5) [] llokS loneLogS (by decide) (by decide)
+  (by decide) (by decide) 100 (by decide) (by decide)
+  (fun t ht => by simp only [busS, List.mem_singleton] at ht; subst ht; decide)
+  (fun t ht => by simp only [busS, List.getLast?_singleton, Option.some.injEq] at ht; subst ht; decide)
 
 end PV.C06
